@@ -63,6 +63,15 @@ struct C08 : RBase {
     F.push_back(func("lasterr", {{"n", "int"}}, "str", {ret(json{{"k", "err"}, {"i", 1}, {"t", "str"}})}));
     { json hb = json::array(); hb.push_back(json{{"k", "raise"}, {"n", "OTHERERR"}}); json h; h["n"] = "MYERR"; h["body"] = hb; json blk; blk["k"] = "begin"; blk["body"] = json::array({iff(bin(">", var("n"), ilit(0), "bool"), {json{{"k", "raise"}, {"n", "MYERR"}}})}); blk["handlers"] = json::array({h});
       F.push_back(func("lasterr", {{"n", "int"}, {"m", "int"}}, "str", {blk, ret(json{{"k", "err"}, {"i", 1}, {"t", "str"}})})); }
+    // 15 % of the groups: functions outside the reference interpreter's subset (typeof of a local that different paths give different types), checked by consistency alone:
+    // the same call must print the same line wherever it stands in the history - on a freshly made context, on a recycled one, at any depth
+    const bool consistency = r.chance(0.15);
+    if (consistency) {
+      auto raw = [](const std::string& t) { return json{{"k", "rawstmt"}, {"v", t}}; };
+      F.push_back(raw("function retype(k) return string is\nbegin\n  if k == 1 then\n    lv = \"text\";\n  elsif k == 2 then\n    lv = 5;\n  elsif k == 3 then\n    lv = tab(1, 2.5);\n  end if;\n  return typeof(lv) + str(isnull(lv));\nend;\n"));
+      F.push_back(raw("function deept(n) return string is\nbegin\n  if n > 1000 then\n    lw = true;\n  elsif n > 2000 then\n    lw = \"s\";\n  end if;\n  if n > 0 then\n    return deept(n - 1);\n  end if;\n  return typeof(lw);\nend;\n"));
+      F.push_back(raw("function kind2(k) return string is\nbegin\n  if k > 0 then\n    acc = k;\n    acc = str(k);\n  end if;\n  if isnull(acc) then\n    return \"unset \" + typeof(acc);\n  end if;\n  return \"set\";\nend;\n"));
+    }
     // a fault point while the arguments are bound
     int pt1 = ++p.fault_points, pt2 = ++p.fault_points;
     auto pt = [&](int id, json e) { return json{{"k", "pt"}, {"id", id}, {"m", "pt"}, {"recv", var("v", "obj")}, {"e", e}, {"t", "int"}}; };
@@ -93,6 +102,10 @@ struct C08 : RBase {
       }
       if (r.chance(0.5)) st = guarded(st, r.chance(0.7) ? "OTHERS" : "MYERR");
       B.push_back(st);
+      if (consistency && r.chance(0.5)) { auto raw = [](const std::string& t) { return json{{"k", "rawstmt"}, {"v", t}}; };
+        switch (r.below(6)) { case 0: B.push_back(raw("print \"SAME:rt0:\" retype(0);")); break; case 1: B.push_back(raw("print \"rt:\" retype(" + std::to_string(r.range(1, 3)) + ");")); break;
+                              case 2: B.push_back(raw("print \"SAME:dt:\" deept(" + std::to_string(r.pick(std::vector<long>{0, 1, 3, 7, 20})) + ");")); break; case 3: B.push_back(raw("print \"SAME:k0:\" kind2(0);")); break;
+                              case 4: B.push_back(raw("print \"k:\" kind2(" + std::to_string(r.range(1, 5)) + ");")); break; default: B.push_back(raw("print \"SAME:rt0:\" retype(0);")); B.push_back(raw("print \"SAME:k0:\" kind2(0);")); break; } }
     }
     B.push_back(print({slit("caller:"), var("i0"), var("i1"), var("s0", "str")}));
   }
